@@ -775,9 +775,23 @@ def freeze_tie(ctx, env, om, n):
     import json
 
     bad = 0
-    for i in range(n):
-        if i % 2 == 0:
-            case = gen_freeze_case(ctx.rng, ctx.thorough)
+    # exhaustive small scope first: every block shape of BLOCK_SHAPES (2-4 blocks) x every index in [-N-1, N] on a
+    # generic linear operator, value of the right shape
+    import opalg_trees as T
+
+    exhaustive = []
+    for insh in BLOCK_SHAPES:
+        N = len(insh)
+        for k in range(-N - 1, N + 1):
+            for dt in (("float64",) if not ctx.thorough else ("float64", "complex128")):
+                e = T.leaf(ctx.rng, "lin", insh, [2], lambda: dt)
+                p_ = k + N if k < 0 else k
+                vsh = list(insh[p_]) if 0 <= p_ < N else [1]
+                exhaustive.append({"e": e, "k": k, "vsh": vsh, "vdt": dt, "val": G.encs(vals(ctx.rng, (G.size(vsh),), G.is_cplx(dt)))})
+    ctx.extra["freeze_grid"] = {"block_shapes": BLOCK_SHAPES, "indices": "[-N-1, N]", "cases": len(exhaustive), "exhaustive": True}
+    for i in range(-len(exhaustive), n):
+        if i < 0 or i % 2 == 0:
+            case = exhaustive[i] if i < 0 else gen_freeze_case(ctx.rng, ctx.thorough)
             what, obs, op = "freeze", observe_freeze, "freeze"
             tol = G.tol_of(case["e"]) * (10 if G.has_nonlin(case["e"]) else 1)
             if G.is32(case["vdt"]):
@@ -1128,3 +1142,168 @@ def conv_tie(ctx, env, om, n):
             bad += 1
             if bad >= 5:
                 break
+
+
+# ----------------------------------------------------------------------------- stacks inside further constructions
+# (theorem C05_sound_closed: the invariant is closed under every node, whatever built the operands)
+
+
+def gen_stackx_case(rng, thorough=False):
+    import opalg_trees as T
+
+    one = str(rng.choice(["float64", "complex128"], p=[0.55, 0.45]))
+    dt_of = lambda: one  # noqa: E731
+
+    def plain():
+        return [[1], [2], [3], [1, 2], [2, 2]][int(rng.integers(5))]
+
+    def stack_of(kind, insh_common=None, n_ops=None):
+        N = n_ops or int(rng.integers(1, 4))
+        out0 = plain()
+        same = rng.random() < 0.6
+        es = []
+        for _ in range(N):
+            insh = insh_common if kind == "v" else plain()
+            es.append(T.tree(rng, int(rng.choice([1, 1, 2])), insh, out0 if same else plain(), dt_of, p_bad=0.0, allow_nonlin=False))
+        return {"kind": kind, "es": es, "cin": bool(rng.random() < 0.6), "cout": bool(rng.random() < 0.7)}
+
+    k1 = "v" if rng.random() < 0.5 else "d"
+    insh = T.shape(rng) if rng.random() < 0.5 else plain()
+    inner = stack_of(k1, insh_common=insh)
+    outer = None
+    if rng.random() < 0.55:
+        k2 = "v" if rng.random() < 0.5 else "d"
+        # a vertical outer stack needs the inner stack's input shape for its further operands: draw after observing
+        outer = {"kind": k2, "es": None, "cin": bool(rng.random() < 0.6), "cout": bool(rng.random() < 0.6), "n": int(rng.integers(1, 3))}
+    post = [None, "T", "H", "conj", "gram", "neg", "twice", "half"][int(rng.integers(8))]
+    return {"inner": inner, "outer": outer, "post": post, "_dt": one}
+
+
+def stackx_tie(ctx, env, om, n):
+    import json
+
+    import opalg_trees as T
+
+    linop = env.linop
+    bad = 0
+    for _ in range(n):
+        case = gen_stackx_case(ctx.rng, ctx.thorough)
+        one = case.pop("_dt")
+        impl = None
+        try:
+            inner = case["inner"]
+            ops1 = [env.build(e) for e in inner["es"]]
+            S1 = linop.VerticalStack(ops1, collapse_output=inner["cout"]) if inner["kind"] == "v" else linop.DiagonalStack(ops1, collapse_input=inner["cin"], collapse_output=inner["cout"])
+        except Exception as ex:  # noqa: BLE001
+            impl = ("err", common.err_kind(ex), repr(ex)[:160])
+            S1 = None
+        if S1 is not None and case["outer"] is not None:
+            o = case["outer"]
+            ish = G.lst(S1.input_shape)
+            es2 = []
+            for _k in range(o.pop("n")):
+                insh = ish if o["kind"] == "v" else [int(ctx.rng.integers(1, 4))]
+                es2.append(T.tree(ctx.rng, 1, insh, [int(ctx.rng.integers(1, 4))], lambda: one, p_bad=0.0, allow_nonlin=False))
+            o["es"] = es2
+        elif case["outer"] is not None:
+            case["outer"]["es"] = []
+            case["outer"].pop("n")
+        if impl is None:
+            try:
+                S2 = S1
+                if case["outer"] is not None:
+                    o = case["outer"]
+                    ops2 = [S1] + [env.build(e) for e in o["es"]]
+                    S2 = linop.VerticalStack(ops2, collapse_output=o["cout"]) if o["kind"] == "v" else linop.DiagonalStack(ops2, collapse_input=o["cin"], collapse_output=o["cout"])
+                R = {None: lambda: S2, "T": lambda: S2.T, "H": lambda: S2.H, "conj": lambda: S2.conj(), "gram": lambda: S2.gram_op, "neg": lambda: -S2,
+                     "twice": lambda: S2 + S2, "half": lambda: S2 / 2.0}[case["post"]]()
+                impl = ("ok", R)
+            except Exception as ex:  # noqa: BLE001
+                impl = ("err", common.err_kind(ex), repr(ex)[:160])
+        xs = ys = []
+        obs = impl
+        if impl[0] == "ok":
+            obs = _observe_op(env, impl[1], [])
+            m_, n_ = obs[1]["matrix_shape"]
+            xs = [vals(ctx.rng, (n_,), G.is_cplx(obs[1]["in_dtype"])).astype(np.complex128) for _ in range(2)]
+            ys = [vals(ctx.rng, (m_,), G.is_cplx(obs[1]["out_dtype"])).astype(np.complex128) for _ in range(2)]
+            obs = _observe_op(env, impl[1], xs)
+            ad, addt = [], None
+            for y in ys:
+                try:
+                    z = impl[1].adj(env.to_array(y, obs[1]["out_shape"], obs[1]["out_dtype"]))
+                    ad.append(env.flat(z))
+                    addt = np.dtype(z.dtype).name
+                except Exception as ex:  # noqa: BLE001
+                    ad.append(("err", common.err_kind(ex), repr(ex)[:160]))
+                    addt = "err:" + common.err_kind(ex)
+            obs[1]["adj"], obs[1]["adj_dt"] = ad, addt
+            obs[1].pop("cls")
+        try:
+            r = om.call("stackx", inner=case["inner"], outer=case["outer"], post=case["post"], xs=[G.encs(x) for x in xs], ys=[G.encs(y) for y in ys])
+            r["eval"] = [G.decs(v) for v in r["eval"]]
+            r["adj"] = [G.decs(v) for v in r["adj"]]
+            r["cls"] = None
+            mod = ("ok", r)
+        except common.ModelErr as ex:
+            mod = ("err", ex.kind)
+        if obs[0] == "ok":
+            obs[1]["cls"] = None
+        all_es = case["inner"]["es"] + (case["outer"]["es"] if case["outer"] else [])
+        uni = all(G.kind_uniform({"t": "add", "a": e, "b": all_es[0]}) for e in all_es)
+        adj_inside = any(G.uses_adjoint(e) for e in all_es) or case["post"] in ("T", "H", "gram")
+        if obs[0] == "ok" and mod[0] == "ok" and not (uni or not adj_inside):
+            obs[1]["eval"], mod[1]["eval"] = [], []
+        diffs = _compare_op(obs, mod, 1e-9)
+        if not diffs and obs[0] == "ok":
+            a, b = obs[1], mod[1]
+            if a["adj_dt"] != b["adj_dt"]:
+                diffs.append(("adj_dt", a["adj_dt"], b["adj_dt"]))
+            elif uni:
+                kk = max(4, a["matrix_shape"][0] * a["matrix_shape"][1])
+                for i, (u, v) in enumerate(zip(a["adj"], b["adj"])):
+                    if not isinstance(u, tuple) and not G.vec_close(u, v, 1e-9, kk):
+                        diffs.append((f"adj[{i}]", [complex(z) for z in u], [complex(z) for z in v]))
+                        break
+        key = ("stackx", case["inner"]["kind"], case["outer"]["kind"] if case["outer"] else None, case["post"],
+               tuple(G.skeleton(e) for e in all_es), case["inner"]["cin"], case["inner"]["cout"])
+        ctx.case({"what": "stack inside", "key": str(key)[:200]}, key, sample_every=150)
+        ctx.count("stack-inside:" + str(case["inner"]["kind"]) + ">" + str(case["outer"]["kind"] if case["outer"] else "-") + ">" + str(case["post"])
+                  + (":rejected" if obs[0] == "err" else ""))
+        if diffs:
+            d = diffs[0]
+
+            def orc(c, impl=impl, case=case, all_es=all_es, uni=uni):
+                # the property on the implementation: dense matrix of the result = the same construction on numpy matrices
+                if impl[0] != "ok" or not uni:
+                    return None
+                try:
+                    def den_stack(kind, mats):
+                        return np.vstack(mats) if kind == "v" else _blockdiag(mats)
+                    D = den_stack(case["inner"]["kind"], [G.np_den(e) for e in case["inner"]["es"]])
+                    if case["outer"]:
+                        D = den_stack(case["outer"]["kind"], [D] + [G.np_den(e) for e in case["outer"]["es"]])
+                    D = {None: D, "T": D.T, "H": D.conj().T, "conj": D.conj(), "gram": D.conj().T @ D, "neg": -D, "twice": 2 * D, "half": D / 2}[case["post"]]
+                    W = dense(env, impl[1])
+                except Exception as ex:  # noqa: BLE001
+                    return {"what": "stack inside a further construction", "evaluation_raised": repr(ex)[:200]}
+                if W.shape != D.shape or not close(W, D):
+                    return {"what": "stack inside a further construction", "operator_matrix": repr(np.round(W, 6).tolist())[:400],
+                            "same_construction_on_matrices": repr(np.round(D, 6).tolist())[:400]}
+                return None
+
+            ctx.disagree("opalg.stack-inside:" + d[0], {"case": json.loads(json.dumps(case))}, json.loads(json.dumps(d[1], default=str)),
+                         json.loads(json.dumps(d[2], default=str)), oracle=orc)
+            bad += 1
+            if bad >= 5:
+                break
+
+
+def _blockdiag(mats):
+    W = np.zeros((sum(M.shape[0] for M in mats), sum(M.shape[1] for M in mats)), dtype=np.complex128)
+    r = c = 0
+    for M in mats:
+        W[r : r + M.shape[0], c : c + M.shape[1]] = M
+        r += M.shape[0]
+        c += M.shape[1]
+    return W
